@@ -479,7 +479,15 @@ func c13Reshape(c *core.Ctx, lay string) {
 				snap := op.Snap()
 				before := gen.MetaOf(op.D)
 				var err error
-				p, msg := core.Catch(func() { err = op.D.Reshape(target...) })
+				p, msg := core.Catch(func() {
+					if gen.ShapeEq(target, []int(op.D.Shape())) {
+						// the same shape, handed over as the tensor's own shape slice (t.Reshape(t.Shape()...)): the library has to
+						// copy it before it releases the old one
+						err = op.D.Reshape(op.D.Shape()...)
+					} else {
+						err = op.D.Reshape(target...)
+					}
+				})
 				equal := model.Size(target) == n && len(target) > 0
 				cls := "equal-size"
 				if !equal {
